@@ -271,6 +271,11 @@ async def e2e_case(md, shape='normal'):
         elif shape == 'trailers-only-error':
             await stream.send_trailing_metadata(status=Status.NOT_FOUND,
                                                 metadata=list(stream.metadata.items()))
+        elif shape == 'late-error':
+            await stream.send_initial_metadata(metadata=list(stream.metadata.items()))
+            await stream.send_message(b'ok')
+            await stream.send_trailing_metadata(status=Status.NOT_FOUND,
+                                                metadata=list(stream.metadata.items()))
         else:
             await stream.send_trailing_metadata(metadata=list(stream.metadata.items()))
 
@@ -282,17 +287,17 @@ async def e2e_case(md, shape='normal'):
         async with m.open(metadata=md) as stream:
             await stream.send_message(b'x', end=True)
             try:
-                if shape == 'normal':
+                if shape in ('normal', 'late-error'):
                     await stream.recv_message()
                     await stream.recv_trailing_metadata()
                 else:
                     await stream.recv_initial_metadata()
             except GRPCError as e:
-                if shape != 'trailers-only-error' or e.status is not Status.NOT_FOUND:
+                if shape not in ('trailers-only-error', 'late-error') or e.status is not Status.NOT_FOUND:
                     raise
             im = list(stream.initial_metadata.items())
-            tm = list(stream.trailing_metadata.items())
-    return seen.get('req'), (im if shape == 'normal' else md), tm
+            tm = list(stream.trailing_metadata.items()) if stream.trailing_metadata is not None else None
+    return seen.get('req'), (im if shape in ('normal', 'late-error') else md), tm
 
 
 def run_e2e(cases):
@@ -412,8 +417,8 @@ def run(ctx):
                 res.disagreements.append({'case': {'op': 'encbin', 'b': b}, 'model': a2,
                                           'impl': 'in-Coq vm_compute says %r' % (a1,)})
     # end to end: valid metadata through a real client/server pair, in three response layouts
-    shapes = ['normal', 'trailers-only-error', 'trailers-only-ok']
-    cases = [(gen_valid_md(rng), shapes[i % 3]) for i in range(ctx.n(90, 1500))]
+    shapes = ['normal', 'trailers-only-error', 'trailers-only-ok', 'late-error']
+    cases = [(gen_valid_md(rng), shapes[i % 4]) for i in range(ctx.n(120, 2000))]
     for (md, shape), out in zip(cases, run_e2e(cases)):
         res.evaluations += 1
         res.count('e2e:' + shape)
